@@ -48,6 +48,6 @@ Text == IF Bug = "sameline"
         ELSE WriteDoc(Doc)
 
 RoundTrip == DocVerdict(AsCells(Doc), Read(Text)) = <<"ok", 0, 0, 0>>
-Ascii == \A i \in 1..Len(Text) : IsLegal(Text[i])
+Ascii == LET t == Text IN \A i \in 1..Len(t) : IsLegal(t[i])
 TypeOK == Len(items) <= MaxItems
 =============================================================================
